@@ -145,6 +145,8 @@ def parseMode : String → Option OpenMode
 def closedStep (x : Sess) (toks : List String) : Step :=
   match toks with
   | ["filehash"] => { sess := some x, out := s!"r=ok {fileStr x.whole}" }
+  -- a shared advisory lock held by someone else on the backing file: no effect on anything the arena does
+  | ["flock_hold"] | ["flock_release"] => { sess := some x, out := if x.opts.file then "r=ok" else "bad-op" }
   | ["mutate_file", i, v] =>
     match i.toNat?, v.toNat?, x.whole with
     | some i, some v, some f =>
@@ -317,6 +319,8 @@ def step (x : Sess) (toks : List String) : Step :=
         | none => { sess := some x, out := "r=nohandle" }
   | ["flush"] => simple x "r=ok"
   | ["filehash"] => { sess := some x, out := s!"r=ok {fileStr x.whole}" }
+  -- a shared advisory lock held by someone else on the backing file: no effect on anything the arena does
+  | ["flock_hold"] | ["flock_release"] => { sess := some x, out := if x.opts.file then "r=ok" else "bad-op" }
   | ["crashcheck"] =>
     -- kill the process between two operations: open the file as it is now and compare with the running arena
     -- (by `C06.boundary` the answer is `ce=1`; it is computed, not assumed)
